@@ -15,6 +15,8 @@ CONSTANTS
     MaxReopens = 1
     MaxFmtFail = 0
     FmtFails = {}
+    SepForms = {"nl"}
+    WriterEnds = {"sep"}
     Ticks = {"same"}
     RetryTicks = {"same"}
     Phantoms = {0}
